@@ -38,6 +38,28 @@ CLAIMED = {
         note=TRUST + "Backend kernels replaced by size/precondition contracts (floating-point content not modelled). Shapes bounded (blocks<=2/3, native rank<=3/4). Hard-fused operands (masks), svd/qr/eigh, fuse/unfuse covered in C03/C04 packs, not here.",
         technique='AST-to-SMT symbolic execution of the real metadata code against the wf contract; z3 with cvc5 fallback; native replay of counter-models',
     ),
+    'C03': dict(
+        category='proof',
+        text=("The real fuse_legs (hard and meta), fuse_meta_to_hard, unfuse_legs and their metadata functions (_meta_fuse_hard, "
+              "_leg_structure_combine_charges_prod, _combine_hfs_prod, _meta_unfuse_hard, _unfuse_Fusion, _consume_mfs_lowest) interpreted on "
+              "tensors with symbolic charges and dimensions: fused tensor well-formed with one leg per group, charge unchanged, every block lands "
+              "in the block of its fused charges (group law of the spec), merged sub-blocks occupy disjoint in-bounds boxes (the index map is "
+              "injective), unfuse_legs restores legs, history and every original block with its shape, meta->hard equals direct hard fusion, "
+              "nested fusion (depth 2, both modes and mixtures) unfuses layer by layer, invalid groupings rejected with YastnError."),
+        design_ref='DESIGN.md §5 C03',
+        note=TRUST + "Element values (norm, dense equality) are kernel-level: only the bijection of index sets is proved. Operands fused from legs with different sector content (mask machinery) and block() are not under contract.",
+        technique='AST-to-SMT symbolic execution of the real fusion metadata code; kernels as contracts with checked preconditions',
+    ),
+    'C14': dict(
+        category='proof',
+        text=("Relational obligations on the real code: identical symbolic operands pushed through tensordot under fuse_to_matrix / "
+              "fuse_contracted / no_fusion give the same legs, charge, block set AND storage layout; lazily transposed vs materialised operands "
+              "give the same observable result for tensordot, conj, add_leg, transpose, hard fusion; consume_transpose preserves the logical "
+              "view; meta-fusion followed by fuse_meta_to_hard equals direct hard fusion. Discharged for all charges/dims at each shape."),
+        design_ref='DESIGN.md §5 C14',
+        note=TRUST + "Equality of dense VALUES across policies is kernel-level (checked natively on replay only). contract_with_unroll/oe_blocksparse not covered.",
+        technique='relational symbolic execution of the real code paths selected by the configuration knobs; z3',
+    ),
     'C04': dict(
         category='proof',
         text=("STRUCTURAL clauses of the property only: the real svd/qr/eigh (through _merge_to_matrix, _meta_svd/_meta_qr/_meta_eigh, "
